@@ -29,6 +29,9 @@ var errMalformedXPathKey = errors.New("malformed xpath key")
 
 var escapedBracketsReplacer = strings.NewReplacer(`\]`, `]`, `\[`, `[`)
 
+// bracketsEscaper is the inverse of escapedBracketsReplacer, used when a key value is written into an xpath string
+var bracketsEscaper = strings.NewReplacer(`]`, `\]`, `[`, `\[`)
+
 func relativeToAbsPath(p *sdcpb.Path, currentPath []*sdcpb.PathElem) *sdcpb.Path {
 	np := &sdcpb.Path{
 		Elem: make([]*sdcpb.PathElem, 0, len(p.GetElem())+len(currentPath)),
@@ -346,7 +349,7 @@ func ToXPath(p *sdcpb.Path, noKeys bool) string {
 				sb.WriteString("[")
 				sb.WriteString(k)
 				sb.WriteString("=")
-				sb.WriteString(kvMap[k])
+				sb.WriteString(bracketsEscaper.Replace(kvMap[k]))
 				sb.WriteString("]")
 			}
 		}
